@@ -64,7 +64,7 @@ def run(R):
               'with set/frozenset/list/shared containers, add_edge between existing states, a new state with its edges and labels) - with a pool of '
               'formula OBJECTS (composed from shared sub-objects) reused across the calls (now and then also passed to CTLS/LTL.modelcheck); every '
               'answer must equal the proved model on the presentation read back at the time of the call, every formula object must keep its tree, '
-              'K must be left alone, and the returned sets are cleared / polluted by the caller after being recorded')
+              'K must be left alone, and the returned sets are cleared / polluted by the caller after being recorded STACKED NEGATIONS: random formulas with 2-4 negations stacked on random subformulas (under quantifiers, between temporal operators, over derived operators and constants), object and text channel. JOINED ATOM NAMES: atom names of which one is the concatenation / blank- or comma-join / repetition / case variant of others ({p, q} and {pq} are different label sets), most structures with a state of each kind')
     known_finding_probe(R)
     run_print_stream(R, 'C01', 'CTL', 1500 if R.thorough else 150)
     cs = cases(R)
@@ -74,11 +74,16 @@ def run(R):
     # or/and nodes with 3-5 (or 1) operands, each a distinct quantified formula
     wide = wide_cases(R.rng, 3000 if R.thorough else 300, 'CTL')
     run_mc(R, 'CTL', wide, label='_wide_connectives')
+    # negations stacked (not not phi, not not not phi) at random positions of random formulas
+    neg = stacked_negation_cases(R.rng, 3000 if R.thorough else 300, 'CTL')
+    run_mc(R, 'CTL', neg, label='_stacked_negations')
+    # atom names of which one is the concatenation / join of others: {p, q} and {pq} are different label sets
+    run_mc(R, 'CTL', joined_name_cases(R.rng, 3000 if R.thorough else 300, 'CTL'), label='_joined_atom_names')
     rng = R.rng
     # the same cases under other presentations of the structure (states that are not 0..n-1, label containers that are not sets)
     run_mc(R, 'CTL', rng.sample(cs, 20000 if R.thorough else 2400) + wide[::3], label='_renamed_states', alias_every=0, varied=True)
     # the text channel with multi-character atom names
-    run_text(R, 'CTL', [c for c in rng.sample(cs, 6000 if R.thorough else 700) + wide[::4] if all(len(g) > 2 or g[0] not in NARY for g in subformulas(c[1]))])
+    run_text(R, 'CTL', [c for c in rng.sample(cs, 6000 if R.thorough else 700) + wide[::4] + neg[::3] if all(len(g) > 2 or g[0] not in NARY for g in subformulas(c[1]))])
     # one structure queried, edited by its owner and queried again; formula objects reused
     run_live(R, 'CTL', 4000 if R.thorough else 300)
 
